@@ -9,7 +9,7 @@ proves they have the values the model assumes, so an edit of any of them breaks 
 triggers the failing-input search."""
 import ast
 
-from vh.translate import TranslateError, _class, _func, _parse
+from vh.translate import TranslateError, _class, _func, _parse, parse_template
 
 REL = 'katdal/categorical.py'
 
@@ -262,6 +262,8 @@ class CategoricalData:
             yield slice(start, end), self.unique_values[ind]
 
     def add(self, event, value=H_add_value_default):
+        if CMP_add_lo(event, H_add_lo) or CMP_add_hi(event, self.events[-1]):
+            raise IndexError(ANY_)
         if value is not None:
             try:
                 value_index = self._comparable_values.index(value)
@@ -481,7 +483,7 @@ class _Unifier:
 
 
 def _match_templates(tree):
-    tt = ast.parse(TEMPLATE)
+    tt = parse_template(TEMPLATE)        # the same normal form as the katdal file (_parse)
     src_top = {n.name: n for n in tree.body if isinstance(n, (ast.FunctionDef, ast.ClassDef))}
     names = [n.name for n in tree.body if isinstance(n, (ast.FunctionDef, ast.ClassDef))]
     if len(names) != len(set(names)):
@@ -565,12 +567,12 @@ def item_categorical_templates(repo, out):
 
     o = out.append
     o('(* katdal/categorical.py, statement-by-statement template match: decision pieces of the mirrored functions *)')
-    for nm in ('lookup_lo', 'lookup_hi', 'mask_len', 'add_coincide', 'rm_keep', 'unmatched', 'align_keep',
+    for nm in ('lookup_lo', 'lookup_hi', 'mask_len', 'add_lo', 'add_hi', 'add_coincide', 'rm_keep', 'unmatched', 'align_keep',
                'part_lo', 'part_hi', 'part_empty', 'part_first', 'cc_single'):
         o('Definition catg_%s_cmp : Z -> Z -> bool := fun a b => %s.' % (nm, ZCMP[take('CMP_' + nm)]))
     for nm in ('lookup_dec', 'add_after', 'part_dec', 'clip_hi', 'cc_next'):
         o('Definition catg_%s_op : Z -> Z -> Z := fun a b => %s.' % (nm, ZBIN[take('BIN_' + nm)]))
-    for nm in ('lookup_dec', 'lookup_lo', 'add_inc', 'rm_dec', 'match_dist', 'um_axis', 'align_axis', 'align_zero',
+    for nm in ('lookup_dec', 'lookup_lo', 'add_lo', 'add_inc', 'rm_dec', 'match_dist', 'um_axis', 'align_axis', 'align_zero',
                'part_dec', 'clip_lo', 'clip_hi', 'part_empty', 'part_first', 'rr_first', 'cc_single', 'cc_next'):
         o('Definition catg_%s : Z := %s.' % (nm, zint('H_' + nm)))
     for nm in ('lookup_side', 'add_side', 'part_side'):
